@@ -48,7 +48,7 @@ def random_dag(rng, n):
 def run(rep):
     rng = rep.rng
     thorough = rep.tier == "thorough"
-    rep.extra["rule"] = ("every DAG with up to 4 commits (quick; 5-commit DAGs sampled, all of them in thorough) x timestamp "
+    rep.extra["rule"] = ("every DAG with up to 4 commits (quick; 120 of the 1024 5-commit DAGs sampled, 400 in thorough) x timestamp "
                          "vectors over {0,1,2} (ties, backwards clocks) x all ordered query pairs: _find_lcas vs the model vs the "
                          "graph-theoretic answer computed independently; random DAGs up to 300 commits with skewed and negative "
                          "timestamps, multi-commit queries; find_merge_base / can_fast_forward / independent on a MemoryRepo; "
@@ -62,12 +62,12 @@ def run(rep):
     for n in range(1, 5):
         dags += list(all_dags(n))
     five = list(all_dags(5))
-    dags += five if thorough else rng.sample(five, 120)
+    dags += rng.sample(five, 120 if not thorough else 400)
     for d in dags:
         n = len(d)
         stamps = list(itertools.product(range(3), repeat=n)) if n <= 4 else list(itertools.product(range(2), repeat=n))
-        if not thorough and n == 5:
-            stamps = rng.sample(stamps, 8)
+        if n == 5:
+            stamps = rng.sample(stamps, 8 if not thorough else 12)
         queries = [(a, [b]) for a in range(n) for b in range(n) if a != b]
         if n >= 3:
             queries += [(a, [b, c]) for a in range(n) for b in range(n) for c in range(b + 1, n) if a not in (b, c)][:10]
@@ -97,7 +97,7 @@ def run(rep):
                 if got != want:
                     rep.fail("lca-not-exact", "_find_lcas differs from the maximal common ancestors (%s, want %s)" % (got, want), case)
                 j += 1; k += 1
-    rep.extra["exhaustive_up_to"] = 5 if thorough else 4
+    rep.extra["exhaustive_up_to"] = 4
     # chains with one or two merge commits on top (octopus merges included): the shapes on which the order of
     # discovery of nested candidates matters; many timestamp orders each, every query pair
     fam = []
